@@ -192,7 +192,12 @@ def one(h: Harness, spec, limit, b=None, superset=None):
             h.count("language-too-large-to-enumerate")
             return
         if out == "not-finite-choice":
+            # (dependent refinements ...): no enumerated language to compare with; what was reached is still judged for membership
             h.count("not-finite-choice")
+            for kind_, progs_ in reach.items():
+                for p in sorted(progs_)[:40]:
+                    h.holds(f"create_genotype[{kind_}]", "reachable-program-outside-bounded-language", ["prop_in_language", line_spec, d, parse_sx(p)],
+                            f"{kind_} at depth {d} produced {p[:160]}, not a well-typed program of depth <= {d}", [sx(line_spec), d, p])
             return
         lang = {sx(x) for x in parse_sx("(" + out[1:-1] + ")")} if out != "()" else set()
         h.level_a += 1
